@@ -100,6 +100,40 @@ def check_decode_case(case, acc):
                 return
 
 
+def check_inplace_case(case, acc):
+    """ONE configuration object, edited in place between decodes: none -> PAN -> PAN-PREFIX -> PAN -> none.
+    The element must follow the configuration as it is at the time of each call."""
+    from cardutil import iso8583
+    cfg = copy.deepcopy(isogen.get_cfg(case['cfg']))
+    bit, enc = case['bit'], case['enc']
+    bc = cfg[str(bit)]
+    bc.pop('field_processor', None)
+    bc.pop('field_processor_config', None)
+    bc.pop('field_python_type', None)
+    pan = isogen.digits(case['len'], case.get('seed', 0) + bit)
+    data, _ = iso_ref.encode({'MTI': '1240', 'DE%d' % bit: pan}, cfg, enc, False)
+    acc.case(('inplace', case['cfg'], bit, case['len'], enc, tuple(case['steps'])), nontrivial=True, outcome='inplace')
+    n = len(pan)
+    for i, proc in enumerate(case['steps']):
+        if proc is None:
+            bc.pop('field_processor', None)
+            want = pan
+        else:
+            bc['field_processor'] = proc
+            want = (pan[:6] + '*' * (n - 10) + pan[-4:]) if proc == 'PAN' else pan[:9]
+        try:
+            out = iso8583.loads(data, encoding=enc, iso_config=cfg)
+        except Exception as ex:
+            acc.viol('c16.inplace.exception', case, repr(ex), 'dict')
+            return
+        got = out.get('DE%d' % bit)
+        if got != want:
+            sig = 'c16.inplace.disclosure' if (proc and got == pan) else 'c16.inplace.value'
+            acc.viol(sig, case, 'step %d (processor %s): %r' % (i + 1, proc, got), want,
+                     'the same configuration object was edited in place between decodes')
+            return
+
+
 def tasks(tier, seed):
     ts = []
     mask_cases = []
@@ -109,7 +143,7 @@ def tasks(tier, seed):
                 mask_cases.append({'kind': 'mask', 'len': n, 'coding': coding, 'mask_char': mc, 'seed': seed})
     for n in (41, 64, 99, 100, 255, 999, 1000):
         mask_cases.append({'kind': 'mask', 'len': n, 'coding': 'digits', 'mask_char': None, 'seed': seed})
-    for ch in core.spread(mask_cases, 8):
+    for ch in core.chunks(mask_cases, 8):
         ts.append({'cases': ch})
     cfgs = ['PKG'] + ['GEN%d' % ((seed + 3 * i) % 14) for i in range(4)] if tier == 'quick' else ['PKG'] + ['GEN%d' % s for s in range(14)]
     dec = []
@@ -129,7 +163,21 @@ def tasks(tier, seed):
                                     continue
                                 dec.append({'kind': 'dec', 'cfg': cfgname, 'bit': bit, 'proc': proc, 'len': n,
                                             'enc': enc, 'neighbours': nb, 'via': via, 'seed': seed})
-    for ch in core.spread(dec, 48):
+    for ch in core.chunks(dec, 48):
+        ts.append({'cases': ch})
+    inplace = []
+    orders = [[None, 'PAN', 'PAN-PREFIX', 'PAN', None], ['PAN', None, 'PAN'], ['PAN-PREFIX', 'PAN', None, 'PAN-PREFIX'],
+              [None, 'PAN-PREFIX']]
+    for cfgname in cfgs:
+        cfg = isogen.get_cfg(cfgname)
+        for bit in isogen.bits_of(cfgname):
+            if not iso_ref.prefix_len(cfg[str(bit)]):
+                continue
+            for oi, steps in enumerate(orders):
+                for n in (16, 19) if oi else (11, 16, 19, 99):
+                    inplace.append({'kind': 'inplace', 'cfg': cfgname, 'bit': bit, 'len': n,
+                                    'enc': 'cp500' if (bit + oi) % 2 else 'latin_1', 'steps': steps, 'seed': seed})
+    for ch in core.chunks(inplace, 16):
         ts.append({'cases': ch})
     return ts
 
@@ -146,6 +194,8 @@ def run_task(task):
 def replay_into(case, acc):
     if case['kind'] == 'mask':
         check_mask_case(case, acc)
+    elif case['kind'] == 'inplace':
+        check_inplace_case(case, acc)
     else:
         check_decode_case(case, acc)
 
@@ -158,7 +208,9 @@ def describe(tier, seed):
                 'and %s generated configuration(s) re-configured with PAN and with PAN-PREFIX x PAN lengths 10..19, 99 '
                 '(100, 999 on LLLVAR) x {latin_1, cp500} x {alone, with both neighbour elements} through loads and '
                 'through IpmReader: the element equals the masked value / first nine digits and (length >= 11) the '
-                'clear PAN is a substring of no value of the returned dict. Distinct by the tuple listed; all '
+                'clear PAN is a substring of no value of the returned dict. In-place sequences: one configuration '
+                'object whose processor on an element is edited between decodes (none -> PAN -> PAN-PREFIX -> PAN -> '
+                'none and three other orders) - each decode must follow the configuration as it is then. Distinct by the tuple listed; all '
                 'non-trivial.' % ('4' if tier == 'quick' else '14'),
         'assumptions': ['for a 10-character PAN the masked value equals the input (nothing lies between the first six '
                         'and the last four), so non-disclosure is judged from 11 characters up',
